@@ -118,4 +118,34 @@ PROPS["C04"] = {
     "level_note": "Trusted: Lean kernel; extractor; harness. The parser-level chain half currently rests on correspondence only.",
 }
 
+PROPS["C13"] = {
+    "theorem_modules": ["Sidetree.Props.C13"],
+    "prescribes": "Sidetree.Validator.validate (Props.C13: validID_iff, matrix_exact, publicKeysOK_iff, servicesOK_iff, endpointOK_iff, validate_replace, ...)",
+    "obligations": [
+        {"name": "C13_limits", "facts": ["maxIDLength", "maxServiceTypeLength", "idRegexp", "limitOps"]},
+        {"name": "C13_matrix", "facts": ["allowedPurposes", "keyTypesGeneral", "keyTypesVerification", "keyTypesAgreement", "keyTypePurpose"]},
+        {"name": "C13_members", "facts": ["pkRequiredMembers", "pkOptionalMembers", "pkOneOfMembers", "replaceAllowedMembers", "base58Exception", "endpointLoopShape"]},
+        {"name": "C11_ietfValidator", "facts": ["protectedPrefixes", "inspectedMembers", "ietfConds", "pointerConds"]},
+        {"name": "C14_actionConfig", "facts": ["actionConfig"]},
+    ],
+    "streams": [{"gen": "C13", "quick": 6000, "thorough": 300000}],
+    "label": lambda r: _lab(r, r["model"].get("validate", r["model"].get("doc"))),
+    "shape": lambda r: r["case"].get("patch", r["case"].get("doc")),
+    "rule": "a valid patch of each of the eight actions (1-3 keys/services of every type, JWK or base58 material, purpose subsets permitted for the type, "
+            "endpoint as string / list / object / mixed list) and, two times out of three, one labelled mutation of it: one per constraint (id 0/1/50/51/bad character/duplicate, "
+            "missing type/id, both or no material, each forbidden extra member, purposes empty/6 known/5/unknown, full key-type x purpose matrix, invalid/RSA/non-object JWK, "
+            "base58 with JsonWebKey2020 / Ed25519 2018 / empty; service id/type boundaries incl. multi-byte, endpoint missing/null/empty/bad URI/bad later list entry; "
+            "remove lists empty/invalid id/not an array; also-known-as unparsable/duplicate/duplicate after normalisation; replace extra member/shape; ietf protected path/from, "
+            "prefix rule, look-alikes, null/typed members; envelope without action/value); original documents with id/context variants. net/url facts for every string are "
+            "computed by the harness with the standard library. All cases non-trivial; distinct = distinct (label, outcome, patch).",
+    "technique": "Lean 4 theorems (validator = documented constraints; finite tables by decide) + go/ast table obligations + differential correspondence",
+    "level_text": "Proved in Lean for every JSON value: the executable validator equals the documented constraints - ids are 1-50 characters of [A-Za-z0-9_-] "
+                  "(validID_iff, via byte length = character count for ASCII), the key-type x purpose matrix (exhaustively by decide, plus the lift to purpose lists), purposes "
+                  "non-empty/at most five entries/known, exactly-one-material and no unknown member, JWK-or-base58 rule, service id/type/endpoint rule with every string entry of a "
+                  "list checked, uniqueness of ids as List.Nodup, also-known-as parse + uniqueness after normalisation, remove lists, replace documents, original documents. "
+                  "The tables, limits, member lists, comparison operators and the ietf guards are regenerated from the Go AST on every run and tied to the model by kernel-checked equalities.",
+    "level_note": "Trusted: Lean kernel; extractor; harness. net/url (ParseRequestURI, Parse+String) is an oracle supplied per case by Go's standard library. "
+                  "JSON values of the wrong type at a typed position follow Go's lenient accessors in the model (they belong to C19's quantifier).",
+}
+
 NOT_CLAIMED = {}
